@@ -384,9 +384,15 @@ func c16(c *Ctx) {
 	if !c.Quick() {
 		nsock = 6000
 	}
-	bcd := []byte{0x01, 0x38, 0x00, 0x13, 0x80, 0x00}
+	bcd13 := []byte{0x01, 0x38, 0x00, 0x13, 0x80, 0x00}
+	bcd19 := []byte{0, 0, 0, 0, 0x01, 0x38, 0x00, 0x13, 0x80, 0x00}
 	for i := 0; i < nsock; i++ {
 		d := AttDialects[rng.Intn(len(AttDialects))]
+		v2019 := i%3 == 1
+		bcd := bcd13
+		if v2019 {
+			bcd = bcd19
+		}
 		size := uint64(1 + rng.Intn(40))
 		if rng.Intn(4) == 0 {
 			size = uint64(1 + rng.Intn(3000))
@@ -395,11 +401,22 @@ func c16(c *Ctx) {
 		if i%10 == 0 {
 			ch = nil // 0x1212 before any chunk
 		}
+		if i%25 == 7 {
+			// many single-byte gaps: every second byte of a file received as its own chunk (as many gaps as one
+			// 0x9212 body of <= 1023 bytes can list: 8 bytes per range after the name and three fixed bytes)
+			g := 20 + rng.Intn(100)
+			size = uint64(2*g + rng.Intn(2))
+			ch = nil
+			for x := 0; x < g; x++ {
+				ch = append(ch, seg{uint32(2*x + 1), 1})
+			}
+			ch = shuffle(ch)
+		}
 		name := []byte(fmt.Sprintf("f%d.bin", rng.Intn(100)))
 		content := make([]byte, size)
 		rng.Read(content)
 		serial := uint16(rng.Intn(65536))
-		segs := [][]byte{Frame808(0x1210, false, bcd, serial, Body1210(d, []byte("ID"), 0, -1, []AttItem{{name, uint32(size)}}))}
+		segs := [][]byte{Frame808(0x1210, v2019, bcd, serial, Body1210(d, []byte("ID"), 0, -1, []AttItem{{name, uint32(size)}}))}
 		if i%5 == 3 {
 			// equal-sized cells, m of them lost and m received ones sent twice: the bytes counted twice
 			// equal the bytes missing (a byte COUNT that reaches the size must not be taken for coverage)
@@ -414,7 +431,7 @@ func c16(c *Ctx) {
 			for _, j := range perm[m:] {
 				ch = append(ch, seg{uint32(uint64(j) * u), uint32(u)})
 			}
-			segs = [][]byte{Frame808(0x1210, false, bcd, serial, Body1210(d, []byte("ID"), 0, -1, []AttItem{{name, uint32(size)}}))}
+			segs = [][]byte{Frame808(0x1210, v2019, bcd, serial, Body1210(d, []byte("ID"), 0, -1, []AttItem{{name, uint32(size)}}))}
 		}
 		for _, s := range ch {
 			segs = append(segs, Chunk(d, name, s.O, content[s.O:s.O+s.L]))
@@ -429,12 +446,24 @@ func c16(c *Ctx) {
 			at := 1 + rng.Intn(len(segs))
 			segs = append(segs[:at:at], append([][]byte{dup}, segs[at:]...)...)
 		}
-		segs = append(segs, Frame808(0x1212, false, bcd, serial+1, Body1211(name, 2, uint32(size))))
+		segs = append(segs, Frame808(0x1212, v2019, bcd, serial+1, Body1211(name, 2, uint32(size))))
 		want := refGaps(size, ch)
 		for _, s := range shuffle(want) {
 			segs = append(segs, Chunk(d, name, s.O, content[s.O:s.O+s.L]))
 		}
-		segs = append(segs, Frame808(0x1212, false, bcd, serial+2, Body1211(name, 2, uint32(size))))
+		segs = append(segs, Frame808(0x1212, v2019, bcd, serial+2, Body1211(name, 2, uint32(size))))
+		if i%3 == 2 { // several units per read: merge runs of adjacent segments into single writes
+			var merged [][]byte
+			for x := 0; x < len(segs); {
+				k := 1 + rng.Intn(3)
+				var w []byte
+				for y := 0; y < k && x < len(segs); y, x = y+1, x+1 {
+					w = append(w, segs[x]...)
+				}
+				merged = append(merged, w)
+			}
+			segs = merged
+		}
 		req := AttRequest(d, segs)
 		res := AttRun(d, segs, nil)
 		if attModel {
